@@ -74,6 +74,8 @@ class Grid:
                 return bool(v[1])
             if v[0] == "variant":
                 return v[1]
+            if v[0] == "str" and len(v) == 2:
+                return v[1]
             if v[0] == "tuple":
                 return tuple(self.value(x) for x in v[1])
             if v[0] == "ctor":
